@@ -165,7 +165,8 @@ structure State (α κ β : Type) where
   finEv : Option Nat              -- _current_batch_finished_event (identity of the Event object)
   fullEv : Option Nat             -- _current_batch_full_event
   submitted : Bool                -- _current_batch_submitted.is_set()
-  evSet : List Nat                -- finished/full Event objects that are set
+  finSet : List Nat               -- finished-Event objects that are set
+  fullSet : List Nat              -- full-Event objects that are set
   nextEv : Nat                    -- Event objects created so far
   store : Dict κ β                -- the persistent cache store
   reqs : List (Req α β)
@@ -188,7 +189,7 @@ variable {α κ β : Type} [DecidableEq α] [DecidableEq κ]
 
 def init (reqTexts : List α) (directTexts : List (List α)) (store : Dict κ β) : State α κ β :=
   { queue := [], results := [], idx := 0, finEv := none, fullEv := none, submitted := false,
-    evSet := [], nextEv := 0, store := store,
+    finSet := [], fullSet := [], nextEv := 0, store := store,
     reqs := reqTexts.map (fun t => { text := t, pc := .ready }),
     batches := [],
     directs := directTexts.map (fun ts => { texts := ts, pc := .ready }),
@@ -205,7 +206,7 @@ def collectAt (s : State α κ β) (i : Nat) (r : Req α β) (id : Nat) : State 
 
 /-- `await <ev>.wait()` followed by the read: `Event.wait` returns at once when the event is set -/
 def awaitFin (s : State α κ β) (i : Nat) (r : Req α β) (ev id : Nat) : State α κ β :=
-  if ev ∈ s.evSet then collectAt s i r id else setReq s i r (.waitFin ev id)
+  if ev ∈ s.finSet then collectAt s i r id else setReq s i r (.waitFin ev id)
 
 /-- lines 238-240 of basic.py: `req_id = self._req_idx; self._req_idx += 1; self._req_queue[req_id] = text` -/
 def enq1 (s : State α κ β) (t : α) : State α κ β :=
@@ -223,7 +224,7 @@ def enq2 (s : State α κ β) : State α κ β :=
 def enq3 (max : Nat) (s : State α κ β) : State α κ β × Option Nat :=
   if s.queue.length ≥ max then
     match s.fullEv with
-    | some e => ({ s with evSet := e :: s.evSet }, s.finEv)
+    | some e => ({ s with fullSet := e :: s.fullSet }, s.finEv)
     | none => (s, none)
   else (s, s.finEv)
 
@@ -250,7 +251,7 @@ def stepCollect (s : State α κ β) (i : Nat) : Option (State α κ β) :=
   | none => none
   | some r =>
     match r.pc with
-    | .waitFin ev id => if ev ∈ s.evSet then some (collectAt s i r id) else none
+    | .waitFin ev id => if ev ∈ s.finSet then some (collectAt s i r id) else none
     | _ => none
 
 def stepBstart (s : State α κ β) (b : Nat) : Option (State α κ β) :=
@@ -270,7 +271,7 @@ def wake (r : Req α β) : Req α β :=
 def stepTake (cfg : CacheCfg) (g : α → κ) (s : State α κ β) (b : Nat) (timeout : Bool) : Option (State α κ β) :=
   match s.batches[b]? with
   | some (.waiting fe) =>
-    if timeout || decide (fe ∈ s.evSet) then
+    if timeout || decide (fe ∈ s.fullSet) then
       some { s with
         finEv := none,
         queue := [],
@@ -290,7 +291,7 @@ def stepFinish (cfg : CacheCfg) (g : α → κ) (f : α → β) (s : State α κ
     let r := endCall cfg g s.store p (p.uncached.map f)
     let s1 : State α κ β := { s with store := r.1, results := writeResults s.results ids r.2 }
     match ev with
-    | some e => some { s1 with evSet := e :: s1.evSet, batches := s1.batches.set b .done }
+    | some e => some { s1 with finSet := e :: s1.finSet, batches := s1.batches.set b .done }
     | none => some { s1 with batches := s1.batches.set b .crashed }
   | _ => none
 
